@@ -473,13 +473,16 @@ func MonitorSpansHealth() {
 	}
 }
 
+// The RED metrics are computed over the spans of the last 5 minutes.
+const redMetricsWindowMins = 5
+
 func ProcessRedTracesIngest(myid int64) {
 	// Initial request
 	searchRequestBody := structs.SearchRequestBody{
 		IndexName:     "traces",
 		SearchText:    "*",
 		QueryLanguage: "Splunk QL",
-		StartEpoch:    "now-5m",
+		StartEpoch:    fmt.Sprintf("now-%dm", redMetricsWindowMins),
 		EndEpoch:      "now",
 		From:          0,
 		Size:          1000,
@@ -601,7 +604,7 @@ func ProcessRedTracesIngest(myid int64) {
 		}
 
 		redMetrics := structs.RedMetrics{
-			Rate:      float64(spanCnt) / float64(60),
+			Rate:      float64(spanCnt) / float64(redMetricsWindowMins*60), // per second
 			ErrorRate: (float64(errSpanCnt) / float64(spanCnt)) * 100,
 		}
 
